@@ -123,7 +123,166 @@ Proof. unfold same_acct; intros r1 r2 r3 (A & B & C) (D & E & F). repeat split; 
 Ltac sa := unfold same_acct; cbn; auto.
 
 (** ** the generic preorder lemma *)
+Section PreciseSteps.
+  (** the precise version: the hypotheses name exactly the kinds of update a
+      machine step performs on machine [mi]'s runtime *)
+  Variable c : cfg.
+  Variable tp : tape.
+  Variable R : nat -> fstate -> fstate -> Prop.
+  Hypothesis R_refl : forall mi s, R mi s s.
+  Hypothesis R_trans : forall mi s1 s2 s3, R mi s1 s2 -> R mi s2 s3 -> R mi s1 s3.
+  (** log entries other than the two that carry meaning for limits *)
+  Hypothesis R_log : forall mi s e,
+    fst (fst e) <> LOG_DEC -> fst (fst e) <> LOG_CHANGE -> R mi s (add_log s e).
+  Hypothesis R_step : forall mi s, R mi s (add_step s).
+  Hypothesis R_pos : forall mi s p, (pos s <= p)%nat -> R mi s (set_pos s p).
+  (** the machine ends *)
+  Hypothesis R_end : forall mi s r,
+    nth_error (rts s) mi = Some r -> R mi s (set_rt s mi (rt_set_cur r STATE_END (lim r))).
+  (** the machine changes to a different state, sampling a fresh limit *)
+  Hypothesis R_change : forall mi s r ns l p,
+    nth_error (rts s) mi = Some r -> cur r <> ns -> (pos s <= p)%nat ->
+    R mi s (set_pos (set_rt (add_log s (LOG_CHANGE, N.of_nat mi, ns)) mi (rt_set_cur r ns l)) p).
+  (** counters are updated: state, limit and accounting fields untouched *)
+  Hypothesis R_ctr : forall mi s r r',
+    nth_error (rts s) mi = Some r -> cur r' = cur r -> lim r' = lim r -> same_acct r r' ->
+    R mi s (set_rt s mi r').
+  (** the limit is decremented (floored at zero) *)
+  Hypothesis R_dec : forall mi s r,
+    nth_error (rts s) mi = Some r ->
+    R mi s (set_rt (add_log s (LOG_DEC, N.of_nat mi, 0)) mi
+                   (if 0 <? lim r then rt_set_lim r (lim r - 1) else r)).
+  Hypothesis R_slot : forall mi s a, sched_ok c mi a -> R mi s (set_slot s mi a).
+  Hypothesis R_sig : forall mi s g, R mi s (set_sigp s g).
+
+  Ltac rlog_side := let Hc := fresh in (intro Hc; vm_compute in Hc; discriminate Hc).
+  (* first the log entry [E], then the rest *)
+  Ltac rlogthen E := eapply R_trans; [apply (fun mi s => R_log mi s E); rlog_side|].
+  (* the rest first, the log entry [E] last *)
+  Ltac thenrlog E := eapply R_trans; [|apply (fun mi s => R_log mi s E); rlog_side].
+
+  Lemma schedule_action_P : forall s mi st s',
+    schedule_action c tp s mi st = Ok s' -> R mi s s'.
+  Proof.
+    unfold schedule_action; intros s mi st s' H.
+    mbind H as m Em. mbind H as st0 Est. mbind H as sl Esl.
+    apply get_ok in Em. apply getN_ok in Est. apply nthN_In in Est.
+    assert (Hok : forall ta, taction_machine ta = N.of_nat mi -> ta_durations c ta ->
+                             action_shape (saction st0) ta -> sched_ok c mi (Some ta)).
+    { intros ta H1 H2 H3. split; [exact H1|]. split; [exact H2|]. exists m, st0. auto. }
+    destruct (saction st0) as [[t|b r t l|b r t d l|r d l]|] eqn:Ea.
+    - inversion H; subst. rlogthen (LOG_SCHED, N.of_nat mi, st). apply R_slot.
+      apply Hok; cbn; auto.
+    - destruct (sample_day_clamped tp (pos (add_log s (LOG_SCHED, N.of_nat mi, st))) t) as [v p] eqn:E1.
+      pose proof (sample_day_clamped_pos _ _ _ _ _ E1) as Hp. inversion H; subst.
+      rlogthen (LOG_SCHED, N.of_nat mi, st). eapply R_trans; [apply R_pos|apply R_slot]; [cbn; lia|].
+      apply Hok; cbn; auto. do 3 eexists. rewrite E1. reflexivity.
+    - destruct (sample_day_clamped tp (pos (add_log s (LOG_SCHED, N.of_nat mi, st))) t) as [v p] eqn:E1.
+      destruct (sample_day_clamped tp p d) as [v2 p2] eqn:E2.
+      pose proof (sample_day_clamped_pos _ _ _ _ _ E1) as Hp.
+      pose proof (sample_day_clamped_pos _ _ _ _ _ E2) as Hp2. inversion H; subst.
+      rlogthen (LOG_SCHED, N.of_nat mi, st). eapply R_trans; [apply R_pos|apply R_slot]; [cbn; lia|].
+      apply Hok; cbn; auto. split; do 3 eexists; [rewrite E1|rewrite E2]; reflexivity.
+    - destruct (sample_day_clamped tp (pos (add_log s (LOG_SCHED, N.of_nat mi, st))) d) as [v p] eqn:E1.
+      pose proof (sample_day_clamped_pos _ _ _ _ _ E1) as Hp. inversion H; subst.
+      rlogthen (LOG_SCHED, N.of_nat mi, st). eapply R_trans; [apply R_pos|apply R_slot]; [cbn; lia|].
+      apply Hok; cbn; auto. do 3 eexists. rewrite E1. reflexivity.
+    - inversion H; subst. rlogthen (LOG_SCHED, N.of_nat mi, st). apply R_slot. exact I.
+  Qed.
+
+  Lemma update_counter_P : forall (trans : fstate -> nat -> event -> outcome (fstate * bool)) s mi s' al ch,
+    (forall s1 s2 b, trans s1 mi CounterZero = Ok (s2, b) -> R mi s1 s2) ->
+    update_counter trans c tp s mi = Ok (s', al, ch) -> R mi s s'.
+  Proof.
+    unfold update_counter; intros trans s mi s' al ch Htr H.
+    mbind H as m Em. mbind H as r Er. mbind H as st Est. apply get_ok in Er.
+    set (XA := match sctr_a st with
+               | Some cn => _
+               | None => (r, pos s, false)
+               end) in H.
+    assert (HA : (pos s <= snd (fst XA))%nat /\ same_acct r (fst (fst XA))
+                 /\ cur (fst (fst XA)) = cur r /\ lim (fst (fst XA)) = lim r).
+    { subst XA. destruct (sctr_a st) as [cn|]; [|cbn; repeat split; solve [lia | reflexivity | auto]].
+      destruct (ccopy cn).
+      - destruct (_ && _); cbn; (repeat split; solve [lia | reflexivity | auto]).
+      - destruct (sample_value tp (pos s) cn) as [chg p] eqn:Es. apply sample_value_pos in Es.
+        destruct (_ && _); cbn; (repeat split; solve [lia | reflexivity | auto]). }
+    destruct XA as [[rA pA] zA]. cbn in HA. destruct HA as (HA & HAs & HAc & HAl).
+    set (XB := match sctr_b st with
+               | Some cn => _
+               | None => (rA, pA, false)
+               end) in H.
+    assert (HB : (pA <= snd (fst XB))%nat /\ same_acct rA (fst (fst XB))
+                 /\ cur (fst (fst XB)) = cur rA /\ lim (fst (fst XB)) = lim rA).
+    { subst XB. destruct (sctr_b st) as [cn|]; [|cbn; repeat split; solve [lia | reflexivity | auto]].
+      destruct (ccopy cn).
+      - destruct (_ && _); cbn; (repeat split; solve [lia | reflexivity | auto]).
+      - destruct (sample_value tp pA cn) as [chg p] eqn:Es. apply sample_value_pos in Es.
+        destruct (_ && _); cbn; (repeat split; solve [lia | reflexivity | auto]). }
+    destruct XB as [[rB pB] zB]. cbn in HB. destruct HB as (HB & HBs & HBc & HBl).
+    assert (H0 : R mi s (set_pos (set_rt s mi rB) pB)).
+    { eapply R_trans; [apply (R_ctr mi s r rB); [exact Er|congruence|congruence|eapply same_acct_trans; eauto]|apply R_pos].
+      cbn. lia. }
+    destruct (zA || zB).
+    - mbind H as [s2 chg] E2. mbind H as sl Esl. inversion H; subst.
+      apply Htr in E2. eapply R_trans; [exact H0|]. rlogthen (LOG_CZERO, N.of_nat mi, 0). exact E2.
+    - inversion H; subst. exact H0.
+  Qed.
+
+  Lemma transition_P : forall fuel s mi ev s' b,
+    transition fuel c tp s mi ev = Ok (s', b) -> R mi s s'.
+  Proof.
+    induction fuel as [|fuel IH]; intros s mi ev s' b H; [discriminate H|].
+    cbn [transition] in H.
+    set (s0 := add_step (add_log s (LOG_TRANS, N.of_nat mi, N.of_nat (event_idx ev)))) in H.
+    assert (H0 : R mi s s0) by (subst s0; rlogthen (LOG_TRANS, N.of_nat mi, N.of_nat (event_idx ev)); apply R_step).
+    mbind H as r Er. apply get_ok in Er.
+    destruct (cur r =? STATE_END) eqn:Eend; [inversion H; subst; exact H0|].
+    mbind H as m Em. mbind H as st Est.
+    destruct (sample_state tp (pos s0) st ev) as [nxt p] eqn:Es. apply sample_state_pos in Es.
+    assert (H1 : R mi s (set_pos s0 p)) by (eapply R_trans; [exact H0|apply R_pos; exact Es]).
+    destruct nxt as [ns|]; [|inversion H; subst; exact H1].
+    set (s1 := add_log (set_pos s0 p) (LOG_NEXT, N.of_nat mi, ns)) in H.
+    assert (H2 : R mi s s1) by (subst s1; eapply R_trans; [exact H1|]; rlogthen (LOG_NEXT, N.of_nat mi, ns); apply R_refl).
+    destruct (ns =? STATE_END) eqn:Ens;
+      [inversion H; subst; eapply R_trans; [exact H2|apply (R_end mi s1 r); exact Er]|].
+    destruct (ns =? STATE_SIGNAL) eqn:Esg;
+      [inversion H; subst; eapply R_trans; [exact H2|]; rlogthen (LOG_SIGSET, N.of_nat mi, 0); apply R_sig|].
+    mbind H as s2 E2.
+    assert (H3 : R mi s s2).
+    { destruct (N.eqb_spec (cur r) ns) as [Heq|Hneq]; cbn [negb] in E2; [inversion E2; subst; exact H2|].
+      mbind E2 as nst Enst.
+      destruct (match saction nst with Some a4 => sample_limit tp (pos s1) a4 | None => (STATE_LIMIT_MAX, pos s1) end) as [l q] eqn:El.
+      assert (Hq : (pos s1 <= q)%nat).
+      { destruct (saction nst); [apply sample_limit_pos in El; exact El|injection El as _ Hq'; rewrite <- Hq'; apply le_n]. }
+      inversion E2; subst. eapply R_trans; [exact H2|].
+      apply (R_change mi s1 r ns l q); [exact Er|exact Hneq|exact Hq]. }
+    mbind H as r1 Er1. mbind H as below Ebel. mbind H as [[s5 allow] chg] Euc.
+    apply update_counter_P in Euc; [|intros; eapply IH; eassumption].
+    mbind H as s6 Esch. mbind H as r2 Er2. inversion H; subst.
+    eapply R_trans; [exact H3|]. eapply R_trans; [exact Euc|].
+    destruct (allow && below); [eapply schedule_action_P; exact Esch|inversion Esch; subst; apply R_refl].
+  Qed.
+
+  Lemma decrement_limit_P : forall s mi s', decrement_limit c tp s mi = Ok s' -> R mi s s'.
+  Proof.
+    unfold decrement_limit; intros s mi s' H.
+    mbind H as r0 Er0. apply get_ok in Er0.
+    set (r := if 0 <? lim r0 then rt_set_lim r0 (lim r0 - 1) else r0) in H.
+    set (s1 := set_rt (add_log s (LOG_DEC, N.of_nat mi, 0)) mi r) in H.
+    assert (H1 : R mi s s1) by (subst s1 r; apply R_dec; exact Er0).
+    mbind H as m Em. mbind H as st Est.
+    destruct (saction st) as [act|]; [|inversion H; subst; exact H1].
+    destruct ((lim r =? 0) && action_has_limit act); [|inversion H; subst; exact H1].
+    mbind H as [s2 b] E2. inversion H; subst.
+    apply transition_P in E2. eapply R_trans; [exact H1|].
+    eapply R_trans; [apply (R_slot mi s1 None); exact I|]. rlogthen (LOG_LIMIT, N.of_nat mi, 0). exact E2.
+  Qed.
+End PreciseSteps.
+
 Section Preorder.
+  (** the coarse version used for frame properties: any runtime update that
+      keeps the accounting fields, any log entry *)
   Variable c : cfg.
   Variable tp : tape.
   Variable R : nat -> fstate -> fstate -> Prop.
@@ -137,130 +296,53 @@ Section Preorder.
   Hypothesis R_slot : forall mi s a, sched_ok c mi a -> R mi s (set_slot s mi a).
   Hypothesis R_sig : forall mi s g, R mi s (set_sigp s g).
 
-  Ltac rchain :=
-    repeat first
-      [ assumption
-      | apply R_refl
-      | eapply R_trans; [|solve [apply R_log | apply R_step | apply R_rt | apply R_slot | apply R_sig
-                                 | apply R_pos; cbn; lia]]
-      | eapply R_trans; [|eassumption] ].
+  Lemma R_change_coarse : forall mi s r ns l p,
+    nth_error (rts s) mi = Some r -> cur r <> ns -> (pos s <= p)%nat ->
+    R mi s (set_pos (set_rt (add_log s (LOG_CHANGE, N.of_nat mi, ns)) mi (rt_set_cur r ns l)) p).
+  Proof.
+    intros mi s r ns l p Hr _ Hp. eapply R_trans; [apply R_log|].
+    eapply R_trans; [apply (R_rt mi _ r (rt_set_cur r ns l)); [exact Hr|sa]|apply R_pos; exact Hp].
+  Qed.
+
+  Lemma R_dec_coarse : forall mi s r,
+    nth_error (rts s) mi = Some r ->
+    R mi s (set_rt (add_log s (LOG_DEC, N.of_nat mi, 0)) mi
+                   (if 0 <? lim r then rt_set_lim r (lim r - 1) else r)).
+  Proof.
+    intros mi s r Hr. eapply R_trans; [apply R_log|].
+    apply (R_rt mi _ r); [exact Hr|destruct (0 <? lim r); sa].
+  Qed.
 
   Lemma schedule_action_R : forall s mi st s',
     schedule_action c tp s mi st = Ok s' -> R mi s s'.
   Proof.
-    unfold schedule_action; intros s mi st s' H.
-    mbind H as m Em. mbind H as st0 Est. mbind H as sl Esl.
-    apply get_ok in Em. apply getN_ok in Est. apply nthN_In in Est.
-    assert (Hok : forall ta, taction_machine ta = N.of_nat mi -> ta_durations c ta ->
-                             action_shape (saction st0) ta -> sched_ok c mi (Some ta)).
-    { intros ta H1 H2 H3. split; [exact H1|]. split; [exact H2|]. exists m, st0. auto. }
-    destruct (saction st0) as [[t|b r t l|b r t d l|r d l]|] eqn:Ea.
-    - inversion H; subst. eapply R_trans; [apply R_log|apply R_slot].
-      apply Hok; cbn; auto.
-    - destruct (sample_day_clamped tp (pos (add_log s (LOG_SCHED, N.of_nat mi, st))) t) as [v p] eqn:E1.
-      pose proof (sample_day_clamped_pos _ _ _ _ _ E1) as Hp. inversion H; subst.
-      eapply R_trans; [apply R_log|]. eapply R_trans; [apply R_pos|apply R_slot]; [cbn; lia|].
-      apply Hok; cbn; auto. do 3 eexists. rewrite E1. reflexivity.
-    - destruct (sample_day_clamped tp (pos (add_log s (LOG_SCHED, N.of_nat mi, st))) t) as [v p] eqn:E1.
-      destruct (sample_day_clamped tp p d) as [v2 p2] eqn:E2.
-      pose proof (sample_day_clamped_pos _ _ _ _ _ E1) as Hp.
-      pose proof (sample_day_clamped_pos _ _ _ _ _ E2) as Hp2. inversion H; subst.
-      eapply R_trans; [apply R_log|]. eapply R_trans; [apply R_pos|apply R_slot]; [cbn; lia|].
-      apply Hok; cbn; auto. split; do 3 eexists; [rewrite E1|rewrite E2]; reflexivity.
-    - destruct (sample_day_clamped tp (pos (add_log s (LOG_SCHED, N.of_nat mi, st))) d) as [v p] eqn:E1.
-      pose proof (sample_day_clamped_pos _ _ _ _ _ E1) as Hp. inversion H; subst.
-      eapply R_trans; [apply R_log|]. eapply R_trans; [apply R_pos|apply R_slot]; [cbn; lia|].
-      apply Hok; cbn; auto. do 3 eexists. rewrite E1. reflexivity.
-    - inversion H; subst. eapply R_trans; [apply R_log|apply R_slot]. exact I.
+    apply (schedule_action_P c tp R); auto.
   Qed.
 
   Lemma update_counter_R : forall (trans : fstate -> nat -> event -> outcome (fstate * bool)) s mi s' al ch,
     (forall s1 s2 b, trans s1 mi CounterZero = Ok (s2, b) -> R mi s1 s2) ->
     update_counter trans c tp s mi = Ok (s', al, ch) -> R mi s s'.
   Proof.
-    unfold update_counter; intros trans s mi s' al ch Htr H.
-    mbind H as m Em. mbind H as r Er. mbind H as st Est. apply get_ok in Er.
-    (* counter A *)
-    set (XA := match sctr_a st with
-               | Some cn => _
-               | None => (r, pos s, false)
-               end) in H.
-    assert (HA : (pos s <= snd (fst XA))%nat /\ same_acct r (fst (fst XA))).
-    { subst XA. destruct (sctr_a st) as [cn|]; [|cbn; split; [lia|sa]].
-      destruct (ccopy cn).
-      - destruct (_ && _); cbn; (split; [lia|sa]).
-      - destruct (sample_value tp (pos s) cn) as [chg p] eqn:Es. apply sample_value_pos in Es.
-        destruct (_ && _); cbn; (split; [lia|sa]). }
-    destruct XA as [[rA pA] zA]. cbn in HA. destruct HA as [HA HAs].
-    set (XB := match sctr_b st with
-               | Some cn => _
-               | None => (rA, pA, false)
-               end) in H.
-    assert (HB : (pA <= snd (fst XB))%nat /\ same_acct rA (fst (fst XB))).
-    { subst XB. destruct (sctr_b st) as [cn|]; [|cbn; split; [lia|sa]].
-      destruct (ccopy cn).
-      - destruct (_ && _); cbn; (split; [lia|sa]).
-      - destruct (sample_value tp pA cn) as [chg p] eqn:Es. apply sample_value_pos in Es.
-        destruct (_ && _); cbn; (split; [lia|sa]). }
-    destruct XB as [[rB pB] zB]. cbn in HB. destruct HB as [HB HBs].
-    assert (H0 : R mi s (set_pos (set_rt s mi rB) pB)).
-    { eapply R_trans; [apply (R_rt mi s r rB); [exact Er|eapply same_acct_trans; eauto]|apply R_pos]. cbn. lia. }
-    destruct (zA || zB).
-    - mbind H as [s2 chg] E2. mbind H as sl Esl. inversion H; subst.
-      apply Htr in E2. eapply R_trans; [exact H0|]. eapply R_trans; [apply R_log|exact E2].
-    - inversion H; subst. exact H0.
+    apply (update_counter_P c tp R); auto.
+    intros; eapply R_rt; eauto.
   Qed.
 
   Lemma transition_R : forall fuel s mi ev s' b,
     transition fuel c tp s mi ev = Ok (s', b) -> R mi s s'.
   Proof.
-    induction fuel as [|fuel IH]; intros s mi ev s' b H; [discriminate H|].
-    cbn [transition] in H.
-    set (s0 := add_step (add_log s (LOG_TRANS, N.of_nat mi, N.of_nat (event_idx ev)))) in H.
-    assert (H0 : R mi s s0) by (subst s0; eapply R_trans; [apply R_log|apply R_step]).
-    mbind H as r Er. apply get_ok in Er.
-    destruct (cur r =? STATE_END) eqn:Eend; [inversion H; subst; exact H0|].
-    mbind H as m Em. mbind H as st Est.
-    destruct (sample_state tp (pos s0) st ev) as [nxt p] eqn:Es. apply sample_state_pos in Es.
-    assert (H1 : R mi s (set_pos s0 p)) by (eapply R_trans; [exact H0|apply R_pos; exact Es]).
-    destruct nxt as [ns|]; [|inversion H; subst; exact H1].
-    set (s1 := add_log (set_pos s0 p) (LOG_NEXT, N.of_nat mi, ns)) in H.
-    assert (H2 : R mi s s1) by (subst s1; eapply R_trans; [exact H1|apply R_log]).
-    destruct (ns =? STATE_END) eqn:Ens;
-      [inversion H; subst; eapply R_trans; [exact H2|apply (R_rt mi s1 r (rt_set_cur r STATE_END (lim r))); [exact Er|sa]]|].
-    destruct (ns =? STATE_SIGNAL) eqn:Esg;
-      [inversion H; subst; eapply R_trans; [exact H2|]; eapply R_trans; [apply R_log|apply R_sig]|].
-    mbind H as s2 E2.
-    assert (H3 : R mi s s2).
-    { destruct (negb (cur r =? ns)); [|inversion E2; subst; exact H2].
-      mbind E2 as nst Enst.
-      destruct (match saction nst with Some a4 => sample_limit tp (pos s1) a4 | None => (STATE_LIMIT_MAX, pos s1) end) as [l q] eqn:El.
-      assert (Hq : (pos s1 <= q)%nat).
-      { destruct (saction nst); [apply sample_limit_pos in El; exact El|injection El as _ Hq'; rewrite <- Hq'; apply le_n]. }
-      inversion E2; subst. eapply R_trans; [exact H2|].
-      eapply R_trans; [apply (R_rt mi s1 r (rt_set_cur r ns l)); [exact Er|sa]|apply R_pos]. cbn. exact Hq. }
-    mbind H as r1 Er1. mbind H as below Ebel. mbind H as [[s5 allow] chg] Euc.
-    apply update_counter_R in Euc; [|intros; eapply IH; eassumption].
-    mbind H as s6 Esch. mbind H as r2 Er2. inversion H; subst.
-    eapply R_trans; [exact H3|]. eapply R_trans; [exact Euc|].
-    destruct (allow && below); [eapply schedule_action_R; exact Esch|inversion Esch; subst; apply R_refl].
+    apply (transition_P c tp R); auto.
+    - intros; eapply R_rt; eauto; sa.
+    - apply R_change_coarse.
+    - intros; eapply R_rt; eauto.
   Qed.
 
   Lemma decrement_limit_R : forall s mi s', decrement_limit c tp s mi = Ok s' -> R mi s s'.
   Proof.
-    unfold decrement_limit; intros s mi s' H.
-    mbind H as r0 Er0. apply get_ok in Er0.
-    set (r := if 0 <? lim r0 then rt_set_lim r0 (lim r0 - 1) else r0) in H.
-    set (s1 := set_rt (add_log s (LOG_DEC, N.of_nat mi, 0)) mi r) in H.
-    assert (H1 : R mi s s1).
-    { subst s1; eapply R_trans; [apply R_log|apply (R_rt mi (add_log s (LOG_DEC, N.of_nat mi, 0)) r0 r); [exact Er0|]].
-      subst r. destruct (0 <? lim r0); sa. }
-    mbind H as m Em. mbind H as st Est.
-    destruct (saction st) as [act|]; [|inversion H; subst; exact H1].
-    destruct ((lim r =? 0) && action_has_limit act); [|inversion H; subst; exact H1].
-    mbind H as [s2 b] E2. inversion H; subst.
-    apply transition_R in E2. eapply R_trans; [exact H1|].
-    eapply R_trans; [apply (R_slot mi s1 None); exact I|]. eapply R_trans; [apply R_log|exact E2].
+    apply (decrement_limit_P c tp R); auto.
+    - intros; eapply R_rt; eauto; sa.
+    - apply R_change_coarse.
+    - intros; eapply R_rt; eauto.
+    - apply R_dec_coarse.
   Qed.
 
   Lemma trans_dec_R : forall s mi ev dec s', trans_dec c tp s mi ev dec = Ok s' -> R mi s s'.
